@@ -40,17 +40,17 @@ def check(ctx, src):
     cp = comp.rm.func("compile_pattern")
     ctx.require(cp is not None, "compile_pattern not found")
     # --- collect the if/elif chain on `value`
-    chain = []
-    first = next((st for st in cp.body if isinstance(st, ast.If) and "value" in norm(st.test) and "assignment" not in norm(st.test)), None)
-    ctx.need(first is not None, "compile_pattern: arm chain not found")
-    n = first
-    while True:
-        chain.append(n)
-        if len(n.orelse) == 1 and isinstance(n.orelse[0], ast.If):
-            n = n.orelse[0]
-        else:
-            tail = n.orelse
-            break
+    # the arms: every `if` of compile_pattern (if/elif chain or guard clauses - the canonical form flattens them) that
+    # tests `value`, in source order; what follows the last arm is the tail
+    chain = sorted((n for n in pyq.walk_no_nested(cp) if isinstance(n, ast.If) and any(isinstance(x, ast.Name) and x.id == "value" for x in ast.walk(n.test))
+                    and "assignment" not in norm(n.test)), key=lambda n: (n.lineno, n.col_offset))
+    ctx.need(len(chain) >= 8, "compile_pattern: arm chain not found")
+    last = chain[-1]
+    tail = list(last.orelse)
+    par = getattr(last, "_parent", None)
+    sibs = getattr(par, "body", []) if par is not None else []
+    if any(last is x for x in sibs):
+        tail += sibs[[id(x) for x in sibs].index(id(last)) + 1:]
     pos = {}
     for i, arm in enumerate(chain):
         t = norm(arm.test)
